@@ -195,6 +195,9 @@ class Case:
         cp = copy.deepcopy(part)
         cp.fill(arr, "w", reset=True)
         lc = cp.leaf_counts("w")
+        if lc is None:
+            self.fail("leaf_counts is not available for an id that was just filled (a leaf of the tree is missing from `leaves`?)")
+            return
         hist = [0] * len(lc)
         for p in arr:
             k = self.leaf_index(part, p)
@@ -298,6 +301,7 @@ class Case:
                     o = [exc(e)]; self.fail("build raised " + type(e).__name__); part.node = None; part.leaves = []
                 self.obs.append(("tree", o))
                 if built and part.node is not None:
+                  try:
                     self.check_structure(part, m, ub, data, True)
                     if "none-child" not in self.flags:
                         # filling the build data under another id reproduces the build counts at every node
@@ -308,8 +312,12 @@ class Case:
                                 self.fail("filling the build data under another id does not reproduce the build counts",
                                           depth=depth, build=d.get("build"), filled=d.get("w"))
                         self.check_cells(part, data)
-                        if sum(part.leaf_counts("build")) != len(data):
-                            self.fail("leaf counts do not add up to the number of points built")
+                        lcb = part.leaf_counts("build")
+                        if lcb is None or sum(lcb) != len(data):
+                            self.fail("leaf counts do not add up to the number of points built (or are not available for the build id)",
+                                      leaf_counts=None if lcb is None else [int(x) for x in lcb], points=int(len(data)))
+                  except Exception as e:   # the public tree of a changed implementation may be malformed in ways the clauses do not anticipate
+                    self.fail("a property clause could not be evaluated on the public tree after build: " + type(e).__name__ + ": " + str(e)[:120])
             elif k == "fill":
                 _, tid, reset, pts = op
                 arr = np.array(pts, dtype=float).reshape(-1, m)
@@ -322,9 +330,12 @@ class Case:
                     o = [exc(e)]; self.fail("fill raised " + type(e).__name__)
                 self.obs.append(("tree", o))
                 if part.node is not None and o[0] not in ("NONE",) and not o[0].startswith("EXC"):
-                    self.check_fill(part, before, arr, tid, reset)
-                    self.check_structure(part, m, ub, data, False)
-                    self.check_cells(part, arr)
+                    try:
+                        self.check_fill(part, before, arr, tid, reset)
+                        self.check_structure(part, m, ub, data, False)
+                        self.check_cells(part, arr)
+                    except Exception as e:
+                        self.fail("a property clause could not be evaluated on the public tree after fill: " + type(e).__name__ + ": " + str(e)[:120])
             elif k == "reset":
                 _, tid = op
                 self.lines.append(f"reset 0 {IDS[tid]}")
@@ -435,12 +446,17 @@ def gen_points(rng, n, m, kind, scale):
     elif kind == "clusters":
         c = rng.integers(0, 3, n)
         a = rng.normal(0, .2, (n, m)) + c[:, None] * 4.0
+    elif kind == "few_scalars":
+        # binary / ternary features: a node can hold many points but only a handful of distinct *scalar* values, so that the
+        # third stop condition of build (np.unique(data).size <= count_ubound) is the one that ends the recursion
+        vals = np.array([[0.0, 1.0], [0.0, 0.5, 1.0], [-1.0, 1.0], [2.0, 3.0, 5.0]][int(rng.integers(0, 4))])
+        a = vals[rng.integers(0, len(vals), (n, m))] if n else np.zeros((0, m))
     else:
         raise ValueError(kind)
     return np.asarray(a, dtype=float).reshape(n, m) + 0.0
 
 
-KINDS = ["uniform", "normal", "int_small", "int_wide", "dyadic", "dup", "const_axis", "clusters"]
+KINDS = ["uniform", "normal", "int_small", "int_wide", "dyadic", "dup", "const_axis", "clusters", "few_scalars"]
 
 
 def tree_mids(tokens):
@@ -470,6 +486,8 @@ def gen_case(rng, idx, big):
     if ub == 100 and n <= 100 and rng.random() < .7:
         ub = int([1, 2, 5][int(rng.integers(0, 3))])
     cplb = float([2e-10, .1, .25][int(rng.integers(0, 3))])
+    if kind == "few_scalars":
+        m, ub, cplb = max(2, m), int([2, 3, 5][int(rng.integers(0, 3))]), 2e-10
     data = gen_points(rng, n, m, kind, scale)
     return {"id": idx, "count_ubound": ub, "cplb": cplb, "m": m, "kind": kind, "n": n,
             "int_dtype": bool(kind in ("int_small", "int_wide") and rng.random() < .3),
